@@ -64,6 +64,7 @@ var xlateTargets = map[string][]string{
 		"encoderDict.DictLen", "encoderDict.Available", "encoderDict.Buffered",
 		"hashTableExponent", "hashTable.buffered", "hashTable.addIndex", "hashTable.putDelta", "hashTable.putEntry", "hashTable.getMatches",
 		"binTree.max", "binTree.min", "binTree.distance",
+		"uint32LE", "uint64LE", "header.unmarshalBinary", "validDictCap", "ValidHeader",
 	},
 	".": {"padLen", "readUvarint", "readSizeInBlockHeader", "readRecord", "verifyFlags"},
 }
